@@ -123,6 +123,33 @@ def gen_source(rng, gen):
     return ('local', [('q', None, l)], gen.gen('any', {'q': 'obj'}, 3, False))
 
 
+def related_sources(rng):
+    """Sources that are views of the SAME shared library values (operands, then their combination; an object,
+    then what is derived from it): an answer that leaks a cache or a 'checked' mark from one request into the
+    next needs exactly such a group, in some order."""
+    l = lib_ref(rng)
+    base, patch, okpatch, layered = (('field', l, n) for n in ('base', 'patch', 'okpatch', 'layered'))
+    key = ('str', rng.choice(['a', 'b', 'c', 'd']))
+    groups = [
+        [base, patch, okpatch, ('field', base, 'x'), ('field', patch, 'x'),
+         ('binary', 'add', base, patch), ('field', ('binary', 'add', base, patch), 'x'),
+         ('binary', 'add', base, okpatch), ('field', ('binary', 'add', base, okpatch), 'y'),
+         ('binary', 'add', ('binary', 'add', base, okpatch), patch),
+         ('binary', 'eq', ('binary', 'add', base, patch), ('binary', 'add', base, okpatch))],
+        [layered, ('std', 'objectFieldsEx', [layered, ('true',)]), ('std', 'objectFieldsEx', [layered, ('false',)]),
+         ('std', 'length', [layered]), ('binary', 'eq', layered, layered),
+         ('std', 'objectRemoveKey', [layered, key]),
+         ('std', 'objectFieldsEx', [('std', 'objectRemoveKey', [layered, key]), ('true',)]),
+         ('std', 'length', [('std', 'objectRemoveKey', [layered, key])]),
+         ('binary', 'add', ('std', 'objectRemoveKey', [layered, key]), ('object', [('fix', 'e', False, 'd', None, N(5))])),
+         ('std', 'objectHasEx', [('std', 'objectRemoveKey', [layered, key]), key, ('true',)]),
+         ('field', ('binary', 'add', layered, ('object', [('fix', 'a', False, 'd', None, N(9))])), 'd'),
+         ('std', 'mergePatch', [layered, ('object', [('dyn', key, False, 'd', None, ('null',))])])],
+    ]
+    g = rng.choice(groups)
+    return rng.sample(g, rng.randrange(3, 5))
+
+
 def conv_impl_item(it):
     if it.startswith('ok_'):
         try:
@@ -155,7 +182,9 @@ def run(rep):
     fresh_jobs = []   # (hist index, request index, source index, max_stack)
     for h in range(nhist):
         libs = {n: gen_lib(rng, gen) for n in LIBS}
-        srcs = [gen_source(rng, gen) for _ in range(rng.randrange(2, 5))]
+        related = rng.random() < 0.3
+        srcs = related_sources(rng) if related else [gen_source(rng, gen) for _ in range(rng.randrange(2, 5))]
+        rep.bump('history:' + ('related-views' if related else 'mixed'))
         reqs = []
         ms = 500
         for _ in range(rng.randrange(3, 7 if quick else 11)):
